@@ -226,7 +226,10 @@ func (vc *VC) instr(fr *Frame, st *State, ins ssa.Instruction) {
 		// send cases: channel contents are not modelled, a send has no effect on the heap; whether it is
 		// the case that fires is as arbitrary as for the receive cases
 		if t.Blocking {
+			// ... constrained only by the stated rely (as at sync.Cond.Wait)
+			before := st.clone()
 			vc.havocAll(st, fr.allLocalRoots())
+			vc.assumeRelies(st, before)
 		}
 		idx := vc.q.Fresh(fr.prefix+"$selidx", SInt)
 		lo := int64(0)
